@@ -322,7 +322,7 @@ func runC20_5(c *core.Ctx) {
 func init() {
 	register(&core.Rule{ID: "C19.9", Prop: "C19", MinSites: 1,
 		Desc: "a registration always reports back: every function that takes a *connWithCallback out of its argument calls (or defers) its cb on every path to a return – the enrol paths wait for that callback before they deliver the single result of Register/Enroll/Dial, whatever register0 returned",
-		Run: runC19_9})
+		Run:  runC19_9})
 }
 
 func runC19_9(c *core.Ctx) {
